@@ -303,9 +303,9 @@ func c40Packets(cfg c40Cfg, b c40Bound, emit func(c40Pkt)) {
 func c40FailsafeDPort(variant string, p c40Pkt) bool {
 	switch p.Class {
 	case "tcp22":
-		return variant == "one" || variant == "two"
+		return c40FailsafeHas(variant, "ssh")
 	case "udp53":
-		return variant == "two" && p.PeerInNet
+		return c40FailsafeHas(variant, "dns4") && p.PeerInNet
 	}
 	return false
 }
@@ -314,9 +314,9 @@ func c40FailsafeDPort(variant string, p c40Pkt) bool {
 func c40FailsafeSPort(variant string, p c40Pkt) bool {
 	switch p.Class {
 	case "resp22":
-		return variant == "one" || variant == "two"
+		return c40FailsafeHas(variant, "ssh")
 	case "resp53":
-		return variant == "two" && p.PeerInNet
+		return c40FailsafeHas(variant, "dns4") && p.PeerInNet
 	}
 	return false
 }
@@ -536,21 +536,25 @@ func c40Configs(c *vk.Ctx, emit func(c40Cfg)) {
 	var ewH []ew
 	var maW []string
 	if c.Quick() {
-		failsafes = []fs{{"none", "none"}, {"one", "two"}, {"two", "one"}}
+		// every variant appears on the inbound and on the outbound side ("two" is the IPv4-effective content of
+		// the mix variants; family W uses it)
+		failsafes = []fs{{"none", "none"}, {"one", "mixF"}, {"mixF", "one"}, {"mixM", "mixL"}, {"mixL", "mixM"}}
 		encaps = []string{"none", "both"}
 		hepsH = hepLayouts([]string{"none", "deny"})
 		ewH = []ew{{"RETURN", "allow"}}
 		hepsW = []hp{{"none", "none", "none", "none", "none"}, {"wild", "none", "deny", "deny", "none"}, {"wild", "none", "allow", "allow", "deny"}, {"eth0", "allow", "allow", "allow", "none"}}
 		maW = []string{"ACCEPT"}
 	} else {
-		for _, a := range []string{"none", "one", "two"} {
-			for _, b := range []string{"none", "one", "two"} {
-				failsafes = append(failsafes, fs{a, b})
+		for _, set := range [][]string{{"none", "one", "two"}, {"mixF", "mixM", "mixL"}} {
+			for _, a := range set {
+				for _, b := range set {
+					failsafes = append(failsafes, fs{a, b})
+				}
 			}
 		}
 		encaps = []string{"none", "ipip", "vxlan", "both"}
 		hepsH = hepLayouts(pol)
-		ewH = []ew{{"RETURN", "allow"}, {"DROP", "deny"}}
+		ewH = []ew{{"RETURN", "allow"}}
 		hepsW = hepsH
 		maW = allow2
 	}
@@ -754,7 +758,8 @@ func TestVerif_C40(t *testing.T) {
 			"rendered into raw+mangle+filter by the real setUpIptablesNormal, policyManager, endpointManager and renderers; " +
 			"transitions = kernel-hook traversals of packet classes (path input/forward/output x in/out interface incl. known and unknown workload interfaces x " +
 			"protocol/port class on/off failsafe, reply side, IPIP/VXLAN from in-set/out-of-set peers x conntrack state x DNAT x RPF result x initial mark garbage) executed by nfsim over the rendered text, " +
-			"mark and NOTRACK carried from hook to hook; non-trivial = configurations with a host endpoint carrying at least one deny-all policy")
+			"mark and NOTRACK carried from hook to hook; plus, chain level: cali-failsafe-in/-out of raw, mangle and filter rendered for IPv4 and IPv6 for every ordered pair of the six failsafe list variants " +
+			"(incl. lists mixing IPv4-CIDR, IPv6-CIDR and CIDR-less entries in every order), each applicable entry and its raw reply-side twin probed; non-trivial = configurations with a host endpoint carrying at least one deny-all policy")
 		c.Assume("netfilter hook order raw -> mangle -> filter (-> mangle POSTROUTING) and per-table ACCEPT semantics are the kernel's; NAT table effects are packet attributes (DNAT status bit); " +
 			"conntrack state is a packet attribute, except that NOTRACK in raw makes later hooks see UNTRACKED")
 		c.Assume("pre-existing rules of other software sit in every kernel hook chain (modelled as a jump to an opaque chain); ChainInsertMode is the default 'insert'")
@@ -778,6 +783,16 @@ func TestVerif_C40(t *testing.T) {
 			c.Add("states", st.worlds)
 			c.Add("transitions", st.evals)
 			c.Sample(map[string]any{"cfg": d.Cfg, "pkt": d.Pkt})
+			return
+		}
+
+		// chain-level part: failsafe chain content for IPv4 and IPv6, every ordered pair of list variants
+		fsStates, fsEvals, fsOK := c40FailsafeChains(c)
+		c.Add("states", fsStates)
+		c.Add("transitions", fsEvals)
+		c.Extra("failsafe_chain_renderings", fsStates)
+		c.Extra("failsafe_chain_evaluations", fsEvals)
+		if !fsOK {
 			return
 		}
 
